@@ -29,7 +29,7 @@ Qed.
 
 (* every labelled graph on <= 5 vertices (1 + 1 + 2 + 8 + 64 + 1024 = 1100 graphs), every root *)
 Lemma id_refl_5 : forallb id_okb_all (graphs_upto 5) = true.
-Proof. vm_cast_no_check (eq_refl true). Qed.
+Proof. vm_compute. reflexivity. Qed.
 
 Theorem identity_upto_5 : forall k es r,
     k <= 5 -> In es (sublists (all_pairs k)) -> r < k ->
@@ -81,11 +81,11 @@ Proof.
 Qed.
 
 Lemma enum_refl_5 : forallb (enum_okb_all (fun l => l)) (graphs_upto 5) = true.
-Proof. vm_cast_no_check (eq_refl true). Qed.
+Proof. vm_compute. reflexivity. Qed.
 
 (* the same under the reversed iteration order of every candidate set (a second schedule) *)
 Lemma enum_rev_refl_5 : forallb (enum_okb_all (@rev nat)) (graphs_upto 5) = true.
-Proof. vm_cast_no_check (eq_refl true). Qed.
+Proof. vm_compute. reflexivity. Qed.
 
 Theorem enum_ok_upto_5 : forall k es r,
     k <= 5 -> In es (sublists (all_pairs k)) -> r < k ->
